@@ -13,28 +13,48 @@ import (
 // p fifo / char device or absent. Permission/special bits, uid, gid symbolic; mtimes from a small
 // set; regular files carry 0..maxb symbolic bytes. Returns the expected view (path -> entry).
 func symDiskTree(root string, maxb int) {
+	// S selects the optional parts of the universe: 1 = h (hard link), 2 = l (symlink), 4 = p (fifo/device), 8 = e
+	sel := v.Param("S", 15)
 	perm := func() uint32 { return v.U32("perm") & 07777 }
-	m.MkDir(root+"/d", perm(), v.U32("uid"), v.U32("gid"), chooseMtime("mtime"))
+	// NZ=1: ids are symbolic but non-zero (Stat.SizeVT forks on the zero-ness of every field, which
+	// multiplies paths without touching anything the property is about); NZ=0: fully symbolic
+	nz := v.Param("NZ", 1) != 0
+	id := func(name string) uint32 {
+		x := v.U32(name)
+		if nz {
+			v.Assume(x != 0)
+		}
+		return x
+	}
+	m.MkDir(root+"/d", perm(), id("uid"), id("gid"), chooseMtime("mtime"))
 	if v.Bool("has-d/f") {
-		m.MkFile(root+"/d/f", v.Bytes("data", v.Choose("size", maxb+1)), perm(), v.U32("uid"), v.U32("gid"), chooseMtime("mtime"))
-		if v.Bool("has-h") {
+		m.MkFile(root+"/d/f", v.Bytes("data", v.Choose("size", maxb+1)), perm(), id("uid"), id("gid"), chooseMtime("mtime"))
+		if sel&1 != 0 && v.Bool("has-h") {
 			m.MkLink(root+"/d/f", root+"/h")
 		}
 	}
-	switch v.Choose("class-e", 3) {
-	case 1:
-		m.MkFile(root+"/e", v.Bytes("data", v.Choose("size", maxb+1)), perm(), v.U32("uid"), v.U32("gid"), chooseMtime("mtime"))
-	case 2:
-		m.MkDir(root+"/e", perm(), v.U32("uid"), v.U32("gid"), chooseMtime("mtime"))
+	ce := 0
+	if sel&8 != 0 {
+		ce = v.Choose("class-e", 3)
 	}
-	if v.Bool("has-l") {
-		m.MkSymlink(root+"/l", "d/f", v.U32("uid"), v.U32("gid"), chooseMtime("mtime"))
-	}
-	switch v.Choose("class-p", 3) {
+	switch ce {
 	case 1:
-		m.MkNode(root+"/p", m.KFifo, perm(), 0, v.U32("uid"), v.U32("gid"), chooseMtime("mtime"))
+		m.MkFile(root+"/e", v.Bytes("data", v.Choose("size", maxb+1)), perm(), id("uid"), id("gid"), chooseMtime("mtime"))
 	case 2:
-		m.MkNode(root+"/p", m.KChar, perm(), 0x0103, v.U32("uid"), v.U32("gid"), chooseMtime("mtime"))
+		m.MkDir(root+"/e", perm(), id("uid"), id("gid"), chooseMtime("mtime"))
+	}
+	if sel&2 != 0 && v.Bool("has-l") {
+		m.MkSymlink(root+"/l", "d/f", id("uid"), id("gid"), chooseMtime("mtime"))
+	}
+	cp := 0
+	if sel&4 != 0 {
+		cp = v.Choose("class-p", 3)
+	}
+	switch cp {
+	case 1:
+		m.MkNode(root+"/p", m.KFifo, perm(), 0, id("uid"), id("gid"), chooseMtime("mtime"))
+	case 2:
+		m.MkNode(root+"/p", m.KChar, perm(), 0x0103, id("uid"), id("gid"), chooseMtime("mtime"))
 	}
 	// populating changed the directory mtimes; give them their final values last
 	m.SetMtime(root+"/d", chooseMtime("mtime-d"))
@@ -43,7 +63,7 @@ func symDiskTree(root string, maxb int) {
 // symDirtyDest puts leftovers into dest: nothing, a stale file, an entry of another type at "e",
 // a file where the source has the directory "d".
 func symDirtyDest(dest string) {
-	switch v.Choose("dirty", 5) {
+	switch v.Choose("dirty", v.Param("D", 5)) {
 	case 1:
 		m.MkFile(dest+"/zz", []byte("z"), 0644, 0, 0, 5)
 	case 2:
@@ -118,10 +138,10 @@ func VH_C01_e2e() {
 	srcRoot, dest := m.Root("src"), m.Root("dest")
 	symDiskTree(srcRoot, maxb)
 	symDirtyDest(dest)
-	hadDirD := false
+	priorDirs := map[string]bool{}
 	for _, e := range m.Snapshot(dest) {
-		if e.Path == "d" && e.Kind == m.KDir {
-			hadDirD = true
+		if e.Kind == m.KDir {
+			priorDirs[e.Path] = true
 		}
 	}
 	srcSnap := m.Snapshot(srcRoot)
@@ -150,7 +170,7 @@ func VH_C01_e2e() {
 		return
 	}
 	dstSnap := m.Snapshot(dest)
-	specTreesEqual(srcSnap, dstSnap, func(p string) bool { return !(p == "d" && hadDirD) && !(p == "e" && false) })
+	specTreesEqual(srcSnap, dstSnap, func(p string) bool { return !priorDirs[p] })
 	after := m.Snapshot(srcRoot)
 	v.Assert(len(after) == len(srcSnap), "the source tree is not modified")
 	v.Assert(v.Goroutines() == 0, "every goroutine of both ends has ended")
